@@ -1,4 +1,5 @@
 import VivProofs.SchedLemmas
+import VivProofs.SchedRun
 /-!
 # C03 — the clock is monotone and lands exactly on the requested end; `run_for` terminates
 
@@ -44,28 +45,48 @@ theorem runFor_zero_unforced (c : Cfg) (s : St) :
   refine ⟨{ s with emitTime := s.gt + c.emitStep }, ?_, rfl⟩
   simp [runFor, loop]
 
-/-- **Every sequence of `run_for`/`update` calls** returns; the clock ends at the start time plus
-the sum of the intervals (so it is monotone across calls). -/
+/-- **Every sequence of `run_for`/`update` calls whatever** — any lengths, zero included, forced or not —
+returns; the clock ends at the start time plus the sum of the intervals (so it is monotone across calls). -/
 theorem runCalls_lands (c : Cfg) (hb : PosBeh c.beh) (calls : List (Nat × Bool)) (s : St)
-    (hinv : Inv s) (hpos : ∀ cf ∈ calls, 0 < cf.1) :
-    ∃ s', runCalls c calls s = some s' ∧ s'.gt = s.gt + ((calls.map (·.1)).sum : Nat) ∧ Inv s' := by
+    (hinv : Inv s) (hnp : NoPending s) :
+    ∃ s', runCalls c calls s = some s' ∧ s'.gt = s.gt + ((calls.map (·.1)).sum : Nat) ∧ Inv s' ∧
+      NoPending s' := by
   induction calls generalizing s with
-  | nil => exact ⟨s, rfl, by simp, hinv⟩
+  | nil => exact ⟨s, rfl, by simp, hinv, hnp⟩
   | cons cf rest ih =>
     obtain ⟨iv, force⟩ := cf
-    obtain ⟨s1, h1, h2, h3⟩ := runFor_lands c hb iv force s hinv (hpos (iv, force) (by simp))
-    obtain ⟨s2, k1, k2, k3⟩ := ih s1 h3 (fun cf h => hpos cf (by simp [h]))
-    refine ⟨s2, by simp [runCalls, h1, k1], ?_, k3⟩
-    rw [k2, h2]; simp; omega
+    rcases Nat.eq_zero_or_pos iv with hz | hpos
+    · subst hz
+      cases force with
+      | false =>
+        obtain ⟨s2, k1, k2, k3, k4⟩ := ih { s with emitTime := s.gt + c.emitStep } hinv hnp
+        exact ⟨s2, by simp [runCalls, runFor_zero_false, k1], by simpa using k2, k3, k4⟩
+      | true =>
+        have key := iter_at_end c hb { s with emitTime := s.gt + c.emitStep } hinv hnp
+        simp only at key
+        have hinv1 : Inv (iter c s.gt true { s with emitTime := s.gt + c.emitStep }) := by
+          intro pf hpf
+          have := (key.2 pf hpf).2.2
+          simpa [key.1] using this
+        have hnp1 : NoPending (iter c s.gt true { s with emitTime := s.gt + c.emitStep }) :=
+          fun pf hpf => (key.2 pf hpf).2.1
+        obtain ⟨s2, k1, k2, k3, k4⟩ := ih _ hinv1 hnp1
+        refine ⟨s2, by simp [runCalls, runFor_zero c hb s hinv hnp, k1], ?_, k3, k4⟩
+        rw [k2, key.1]; simp
+    · obtain ⟨s1, h1, h2, h3⟩ := runFor_lands c hb iv force s hinv hpos
+      have h4 := (noPending_after_pos c hb iv force s s1 hinv hnp hpos h1).1
+      obtain ⟨s2, k1, k2, k3, k4⟩ := ih s1 h3 h4
+      refine ⟨s2, by simp [runCalls, h1, k1], ?_, k3, k4⟩
+      rw [k2, h2]; simp; omega
 
 /-- … in particular from a freshly constructed engine, for every composite (including the empty
-process set and processes that never meet their update condition). -/
+process set and processes that never meet their update condition) and every sequence of calls. -/
 theorem engine_always_returns (c : Cfg) (hb : PosBeh c.beh) (t0 : Int) (pids : List Pid)
-    (layers : List (List Sid)) (store : Store) (calls : List (Nat × Bool))
-    (hpos : ∀ cf ∈ calls, 0 < cf.1) :
+    (layers : List (List Sid)) (store : Store) (calls : List (Nat × Bool)) :
     ∃ s', runCalls c calls (init c t0 pids layers store) = some s' ∧
       s'.gt = t0 + ((calls.map (·.1)).sum : Nat) := by
-  obtain ⟨s', h1, h2, _⟩ := runCalls_lands c hb calls _ (init_inv c t0 pids layers store) hpos
+  obtain ⟨s', h1, h2, _⟩ := runCalls_lands c hb calls _ (init_inv c t0 pids layers store)
+    (init_noPending c t0 pids layers store)
   exact ⟨s', h1, by rw [h2]; rfl⟩
 
 /-- non-vacuity: an all-quiet composite and an empty one both return, on time -/
